@@ -8,6 +8,7 @@ ap.add_argument("--repo", default=os.environ.get("VERIF_REPO", "/repo"))
 ap.add_argument("--props", default="")
 ap.add_argument("--mutants", default="")
 ap.add_argument("--out", default=os.path.join(HERE, "seeded", "MATRIX.json"))
+ap.add_argument("--budget", default="")
 ap.add_argument("--all", action="store_true", help="run every check, not only the mutant's own property")
 a = ap.parse_args()
 repo = a.repo
@@ -33,7 +34,7 @@ for m in muts:
         print(m, "PATCH DOES NOT APPLY"); git("reset", "-q", "--hard", "HEAD"); res.setdefault(m, {})["_apply"] = "failed"; continue
     try:
         for prop in props:
-            r = subprocess.run([os.path.join(HERE, "check"), prop, "--tier", "quick"], cwd=HERE, env=env, capture_output=True, text=True)
+            r = subprocess.run([os.path.join(HERE, "check"), prop, "--tier", "quick"] + (["--budget", a.budget] if a.budget else []), cwd=HERE, env=env, capture_output=True, text=True)
             v = [l for l in r.stdout.split("\n") if l.startswith("violation class=")]
             res.setdefault(m, {})[prop] = {"rc": r.returncode, "classes": sorted({l.split(" ")[1][6:] for l in v})[:6]}
             print(m, prop, "rc=%d" % r.returncode, res[m][prop]["classes"][:3], flush=True)
